@@ -219,9 +219,11 @@ class PandasCheckBackend(BaseCheckBackend):
                     .head(self.check.n_failure_cases)["failure_cases"]
                 )
             else:
-                failure_cases = failure_cases.groupby(check_output).head(
-                    self.check.n_failure_cases
-                )
+                # every failure case belongs to the check_output == False
+                # group: the first n of that group are the first n rows.
+                # (grouping by the check_output series would re-align it on
+                # the labels, which fails on duplicated index labels)
+                failure_cases = failure_cases.head(self.check.n_failure_cases)
         return failure_cases
 
     def postprocess_field(
